@@ -116,6 +116,28 @@ def run(ctx, replay=None):
             corr('ini', '%s: impl=%s model=%s' % (op[:300], a[:300], m[:300]))
     ctx.sample({'ini-doc': spec_ops[min(7, len(spec_ops) - 1)], 'impl': il[0] if il else ''})
 
+    # ------------------------------------------------------------------ INI: the include directive's text where it is NOT a directive, through the
+    # file entry point, with an include file of two live lines next to the document: a commented-out include (a "#" line that mentions the directive after a blank or tab) is a
+    # comment like any other - the document says what it said without that line (the specification's answer for the document as generated)
+    iops, iexp = ['incfile ' + hx(b'qvi1=1\nqvi2=2\n')], [None]
+    for k, op in enumerate(ops):
+        if op.startswith('inif ') and len(iops) < (80 if quick else 2000):
+            d0, text = op.split(' ', 2)[1:]
+            for pre in (b'# @INCLUDE qvinc.conf\n', b'#old @INCLUDE qvinc.conf\n', b'#\t@INCLUDE qvinc.conf\n'):
+                iops.append('inif %s %s' % (d0, hx(pre + unhex(text)))); iexp.append(exp[k][1])
+    il2, ml2, err = both_conf(ctx, exe, env_ops() + iops)
+    il2 = il2[len(ENV_SET):]
+    for k, op in enumerate(iops):
+        if iexp[k] is None:
+            continue
+        a = il2[k] if k < len(il2) else 'MISSING'
+        ctx.cov['evaluations'] += 1
+        ctx.count('ini-commented-include')
+        if a.rstrip() != iexp[k].rstrip():
+            kind = 'crash-or-timeout' if a in BAD else 'entries-differ'
+            ctx.report('impl-vs-spec', {'op': 'inif', 'observed': kind}, 'INI parser: a commented-out include directive changes what the file says (%s)' % kind,
+                       {'ops': env_ops() + [iops[0], op], 'expected': iexp[k], 'actual': a})
+
     # ------------------------------------------------------------------ INI: a reference inside the braces of another one (the name of the
     # outer reference is itself computed: documented as "innermost first").  The expectation is the specification's answer for the same document
     # with the inner reference written out, so the judgement is implementation vs specification, not implementation vs model.
